@@ -204,3 +204,18 @@ Example C07_build_lock_example :
   /\ brun [LAcquired 10 5; LJobStart 10 5]%Z empty = None
   /\ brun [LAcquired 10 5; LAcquired 10 (5 + bmagic); LJobStart 10 5; LRelease 10 (5 + bmagic)]%Z empty = None.
 Proof. vm_compute. repeat split; try reflexivity; eexists; split; reflexivity. Qed.
+
+(* ---- the protocol models are about the current source (Sched/ProtocolTie.v;
+   Anchors.v is regenerated from /repo on every run) ---- *)
+From Coq Require Import String.
+From Redo Require Import Anchors Sched.ProtocolTie.
+Theorem C07_build_lock_tied_to_source :
+  (bmagic = build_lock_magic /\ (log_lock_magic < build_lock_magic)%Z)
+  /\ forallb snd protocol_facts = true
+  /\ forallb (fun x => if String.eqb (fst x) "builder.rs"%string then immediate_b (snd x) else true) sites = true.
+Proof. exact (conj bmagic_is_the_sources (conj protocol_facts_hold (proj1 builder_transactions_are_immediate))). Qed.
+Check C07_build_lock_tied_to_source :
+  (bmagic = build_lock_magic /\ (log_lock_magic < build_lock_magic)%Z)
+  /\ forallb snd protocol_facts = true
+  /\ forallb (fun x => if String.eqb (fst x) "builder.rs"%string then immediate_b (snd x) else true) sites = true.
+Print Assumptions C07_build_lock_tied_to_source.
